@@ -1,5 +1,6 @@
 import SakuraVerif.Driver.Wire
 import SakuraVerif.Spec.Dump
+import SakuraVerif.Model.DumpText
 namespace Sakura.Driver
 open Sakura Sakura.Spec Sakura.Wire
 
@@ -50,5 +51,10 @@ def specC20 (bin : List Nat) (text : String) : String :=
                 | (none, why) => "holds=0 why=" ++ why
             | _ => s!"holds=0 why=track-{no}-header-missing"
         goTrack 0 (lines.drop 4) exp
+
+/-- `dumptext <hex bytes>` → the whole text the literal model `Dt.dump` gives for the byte string -/
+def dumpTextOp (bin : List Nat) : String :=
+  let t := String.join ((Dt.dump bin).map (· ++ "\n"))
+  "text=" ++ hex (t.toUTF8.toList.map (fun b => b.toNat))
 
 end Sakura.Driver
